@@ -111,6 +111,8 @@ def script_for(h, meta, extras):
             lines.append(f"put {hx(op[1])} {op[3]}")
         elif op[0] in ("del", "get"):
             lines.append(f"{op[0]} {hx(op[1])}")
+        elif op[0] == "clock":
+            lines.append(f"clock {op[1]}")
         else:
             lines.append(op[0])
         tags.append(("op", i))
@@ -194,7 +196,7 @@ def store_oracle(h, meta, lines, tags, impl, model, want):
             return
         if tag[0] == "op":
             op = h.ops[tag[1]]
-            kx = hx(op[1]) if len(op) > 1 else None
+            kx = hx(op[1]) if op[0] in ("put", "del", "get") else None
             if op[0] == "put":
                 tainted.discard(kx)
                 hazard.discard(kx)
@@ -323,6 +325,14 @@ def generic_store_check(rep, tier, seed, prop, allow, extras_fn, want, nhist, co
         h, meta = gen_history(rng, i, allow, tier, long_files=(rng.random() < share_long))
         if mutate_hist:
             mutate_hist(rng, h)
+        if rng.random() < 0.12 and h.ops:
+            # the wall clock is stepped while the store is in use (an NTP correction, a VM resumed, an operator): back by a
+            # second, an hour, a day; forward; back to the true time. Nothing the store answers may depend on it.
+            ops = list(h.ops)
+            for _ in range(rng.randint(1, 3)):
+                ops.insert(rng.randint(0, len(ops)), ("clock", rng.choice([-1000, -3600000, -86400000, 3600000, 0, -5])))
+            h.ops = ops
+            rep.count("histories_with_clock_steps")
         hists.append((h, meta))
     for h, meta in corpus_histories(prop):
         hists.insert(0, (h, meta))
@@ -332,7 +342,8 @@ def generic_store_check(rep, tier, seed, prop, allow, extras_fn, want, nhist, co
         spans.append((len(all_lines), len(lines), h, meta, tags))
         all_lines += lines
     root = os.path.join(WORK, "run-" + prop)
-    impl, model, died = run_both(all_lines, root)
+    impl, model, died = run_both(all_lines + ["clock 0"], root, preload=True)
+    impl, model = impl[:len(all_lines)], model[:len(all_lines)]
     rep.cov["evaluations"] += len(all_lines)
     rep.cov["traces_validated_against_impl"] += len(hists)
     nv = 0
@@ -365,7 +376,8 @@ def generic_store_check(rep, tier, seed, prop, allow, extras_fn, want, nhist, co
     def rerun(h, meta, ops):
         h2 = Hist(h.name, h.cfg, ops)
         lines, tags = script_for(h2, meta, extras_fn(meta))
-        i2, m2, d2 = run_both(lines, root + "-shrink")
+        i2, m2, d2 = run_both(lines + ["clock 0"], root + "-shrink", preload=True)
+        i2, m2 = i2[:len(lines)], m2[:len(lines)]
         return h2, lines, tags, i2, m2, problems(h2, meta, lines, tags, i2, m2, d2)
 
     known_reported = False
